@@ -72,6 +72,12 @@ def op(f):
     import functools
     @functools.wraps(f)
     def call(inp, W):
+        if isinstance(inp, dict) and inp.get("prep") == "deepcopy":
+            # operands that are themselves results of an earlier operation: their columns own their memory, whereas the
+            # columns of a freshly constructed frame are views of the arrays given
+            inp = dict(inp)
+            for k in ("data", "a", "b"):
+                if hasattr(inp.get(k), "deepcopy"): inp[k] = inp[k].deepcopy()
         _library_state_check()          # first call: records the pristine state; later: restores what a raising op left behind
         r = f(inp, W)
         changed = _library_state_check()
@@ -179,8 +185,6 @@ def df_sort_twice(inp, W):
 @op
 def df_sort(inp, W):
     data = inp["data"]
-    if inp.get("prep") == "deepcopy":
-        data = data.deepcopy()        # the receiver is the result of an earlier operation: its columns own their memory
     out = data.sort(**{name: d for name, d in inp["by"]})
     return {"out": out, "recv": data, "alias": _frame_alias(W, out, data)}
 
